@@ -1,6 +1,7 @@
 package main
 
 import (
+	"os/exec"
 	"encoding/json"
 	"flag"
 	"fmt"
@@ -560,6 +561,19 @@ func (run *CheckRun) Report(e *Engine, writeBaseline, verbose bool) int {
 	if nObl == 0 {
 		ev["coverage"].(map[string]interface{})["obligations"] = 0
 	}
+	// stand-ins (thorough tier): exhaustive / bounded evaluation of the REAL code for an obligation the
+	// solvers do not decide. Never counted as proved; a failing input is a confirmed violation.
+	if run.Tier == "thorough" {
+		sis, siViol := runStandIns(id)
+		if len(sis) > 0 {
+			ev["coverage"].(map[string]interface{})["stand_ins_not_counted_as_proved"] = sis
+			for _, v := range siViol {
+				fmt.Println(v)
+				violations = append(violations, v)
+			}
+			ev["violations"] = len(violations)
+		}
+	}
 	writeJSON(filepath.Join(verifDir, "evidence", id+".json"), ev)
 	fmt.Printf("property %s tier=%s: %d obligations, %d discharged, %d known findings, %d undecided, %d violations, %.1fs (solver %.1fs)\n",
 		id, run.Tier, nObl, nDis, len(knownLines), len(undecided), len(violations), run.wall.Seconds(), float64(run.solverMs)/1000)
@@ -631,4 +645,62 @@ func (e *Engine) funcByShort(short string) *ssa.Function {
 		}
 	}
 	return e.shortIdx[short]
+}
+
+// runStandIns runs /verif/standins/<id>_*_test.go.txt as an in-package test of /repo (overlay, nothing is
+// written into /repo). The test prints STANDIN-FAIL lines for failing inputs and one STANDIN-DONE line.
+func runStandIns(id string) ([]map[string]interface{}, []string) {
+	files, _ := filepath.Glob(filepath.Join(verifDir, "standins", id+"_*_test.go.txt"))
+	var out []map[string]interface{}
+	var viol []string
+	for _, f := range files {
+		src, err := os.ReadFile(f)
+		if err != nil {
+			continue
+		}
+		pkgdir := "."
+		if ls := strings.SplitN(string(src), "\n", 2); strings.HasPrefix(ls[0], "// pkgdir:") {
+			pkgdir = strings.TrimSpace(strings.TrimPrefix(ls[0], "// pkgdir:"))
+		}
+		tmp, err := os.MkdirTemp("", "govstandin")
+		if err != nil {
+			continue
+		}
+		tf := filepath.Join(tmp, "zz_standin_test.go")
+		os.WriteFile(tf, src, 0o644)
+		target := filepath.Join("/repo", pkgdir, "zz_standin_test.go")
+		ov, _ := json.Marshal(map[string]interface{}{"Replace": map[string]string{target: tf}})
+		ovf := filepath.Join(tmp, "ov.json")
+		os.WriteFile(ovf, ov, 0o644)
+		t0 := time.Now()
+		cmd := exec.Command("go", "test", "-overlay", ovf, "-vet=off", "-count=1", "-timeout", "1500s", "-v", "-run", "TestZZStandIn", ".")
+		cmd.Dir = filepath.Join("/repo", pkgdir)
+		cmd.Env = append(os.Environ(), "GOFLAGS=-mod=mod", "GOPROXY=off", "GOSUMDB=off", "GOTOOLCHAIN=local")
+		b, _ := cmd.CombinedOutput()
+		os.RemoveAll(tmp)
+		res := map[string]interface{}{"file": filepath.Base(f), "kind": "exhaustive evaluation of the real code (not deductive, not counted as proved)", "wall_s": time.Since(t0).Seconds()}
+		var fails []string
+		done := ""
+		for _, ln := range strings.Split(string(b), "\n") {
+			if strings.HasPrefix(ln, "STANDIN-FAIL") {
+				fails = append(fails, ln)
+			}
+			if strings.HasPrefix(ln, "STANDIN-DONE") {
+				done = ln
+			}
+		}
+		res["summary"] = done
+		res["failing_inputs"] = fails
+		if done == "" {
+			res["summary"] = "stand-in did not complete: " + truncate(string(b), 400)
+		}
+		out = append(out, res)
+		if len(fails) > 0 {
+			rp := filepath.Join(verifDir, "replays", id, "standin_"+strings.TrimSuffix(filepath.Base(f), "_test.go.txt")+".json")
+			os.MkdirAll(filepath.Dir(rp), 0o755)
+			writeJSON(rp, map[string]interface{}{"property": id, "obligation": "stand-in " + filepath.Base(f), "failing_input": fails, "verifier_output": done})
+			viol = append(viol, fmt.Sprintf("VIOLATION property=%s replay=%s", id, rp))
+		}
+	}
+	return out, viol
 }
